@@ -12,6 +12,7 @@ import (
 	"strconv"
 	"strings"
 	"sync"
+	"sync/atomic"
 	"syscall"
 	"time"
 
@@ -84,8 +85,9 @@ type connResult struct {
 	// ledger (what the harness itself sent and saw delivered)
 	session bool
 	up      int64 // bytes the client wrote that reached the target (exact when ok)
-	upMax   int64 // upper bound for phantom sessions
-	down    int64
+	upMax   int64 // upper bound (phantom sessions, sessions ended by a reset)
+	down    int64 // lower bound = exact value unless downMax differs
+	downMax int64
 }
 
 func (r *connResult) fail(liveness bool, format string, a ...any) {
@@ -105,7 +107,7 @@ type readDone struct {
 // closed when the first byte arrives. The bound is an idle bound: every Read may take at most
 // idle (progress re-arms it), so large transfers on a busy machine are not mistaken for hangs.
 // The drawn (possibly tiny) buffer size is used for the first 8 KiB, where the boundaries are.
-func reader(c net.Conn, seed uint64, bufSize int, idle time.Duration, first chan<- struct{}) <-chan readDone {
+func reader(c net.Conn, seed uint64, bufSize int, idle time.Duration, first chan<- struct{}, progress *atomic.Int64) <-chan readDone {
 	ch := make(chan readDone, 1)
 	go func() {
 		buf := make([]byte, bufSize)
@@ -127,6 +129,9 @@ func reader(c net.Conn, seed uint64, bufSize int, idle time.Duration, first chan
 					}
 				}
 				d.n += int64(n)
+				if progress != nil {
+					progress.Store(d.n)
+				}
 			}
 			if err != nil {
 				if err != io.EOF {
@@ -154,6 +159,23 @@ func writeChunks(c net.Conn, seed uint64, off *int64, chunks []int, idle time.Du
 		*off += int64(n)
 	}
 	return nil
+}
+
+// waitFor polls cond until it holds, the bound expires or stop is closed.
+func waitFor(bound time.Duration, stop <-chan struct{}, cond func() bool) bool {
+	deadline := time.Now().Add(bound)
+	for !cond() {
+		select {
+		case <-stop:
+			return false
+		default:
+		}
+		if time.Now().After(deadline) {
+			return false
+		}
+		time.Sleep(200 * time.Microsecond)
+	}
+	return true
 }
 
 func isTimeout(err error) bool {
@@ -322,9 +344,30 @@ func js(v any) string {
 
 var plainDialer = conn.DialerSocketOptions{}.Dialer()
 
-func harnessClient(c casePlan, i int, frontAddr string) (dial func(ctx context.Context, target conn.Addr, payload []byte) (netio.Conn, error), err error) {
+// captureClient is the harness's innermost stream client: a plain TCP client that remembers the
+// socket it dialled, so that the harness can later end the session abortively (SO_LINGER 0)
+// whatever wrappers the protocol client packages put around it. One per connection.
+type captureClient struct {
+	tcp  *netio.TCPClient
+	last *net.TCPConn
+}
+
+func (c *captureClient) NewStreamDialer() (netio.StreamDialer, netio.StreamDialerInfo) {
+	_, info := c.tcp.NewStreamDialer()
+	return c, info
+}
+
+func (c *captureClient) DialStream(ctx context.Context, addr conn.Addr, payload []byte) (netio.Conn, error) {
+	nc, err := c.tcp.DialStream(ctx, addr, payload)
+	if tc, ok := nc.(*net.TCPConn); ok && err == nil {
+		c.last = tc
+	}
+	return nc, err
+}
+
+func harnessClient(c casePlan, i int, frontAddr string, inner *captureClient) (dial func(ctx context.Context, target conn.Addr, payload []byte) (netio.Conn, error), err error) {
 	tcc := netio.TCPClientConfig{Name: "harness", Network: "tcp4", Dialer: plainDialer}
-	inner := tcc.NewTCPClient()
+	inner.tcp = tcc.NewTCPClient()
 	fa, err := conn.ParseAddr(frontAddr)
 	if err != nil {
 		return nil, err
@@ -404,7 +447,8 @@ func runConn(c casePlan, i int, frontAddr string, tg target, r *connResult) {
 		r.labels = append(r.labels, "wait-applies")
 	}
 
-	dial, err := harnessClient(c, i, frontAddr)
+	sock := &captureClient{}
+	dial, err := harnessClient(c, i, frontAddr, sock)
 	if err != nil {
 		r.fail(true, "SIG=C13/harness-client %v", err)
 		return
@@ -423,9 +467,21 @@ func runConn(c casePlan, i int, frontAddr string, tg target, r *connResult) {
 		err        string
 		liveness   bool
 		wrote      int64
+		attempted  int64 // cmAbort: bytes handed to Write, completed or not
+		waitFailed bool  // cmAbort, target resets: the condition for the reset never became true
 	}
 	tch := make(chan targetOut, 1)
 	abortTarget := make(chan struct{})
+	// live progress of both harness readers; the side that resets (cmAbort) decides on them
+	var clientGot, targetGot atomic.Int64
+	resetCond := func() bool {
+		if p.AbortClean {
+			return clientGot.Load() == p.downTotal() && targetGot.Load() == p.upTotal()
+		}
+		// a downlink byte at the client proves that the relay (and the upstream proxy, if any) has
+		// reached its copy phase, so the session must be recorded whatever happens next
+		return clientGot.Load() >= 1
+	}
 	wantTargetRead := p.upTotal()
 	if p.Mode == cmTargetFirst {
 		wantTargetRead += int64(p.Extra)
@@ -447,7 +503,7 @@ func runConn(c casePlan, i int, frontAddr string, tg target, r *connResult) {
 			defer tc.Close()
 			out.accepted, out.acceptedAt = true, time.Now()
 			first := make(chan struct{})
-			rdc := reader(tc, p.UpSeed, p.ReadBuf, idle, first)
+			rdc := reader(tc, p.UpSeed, p.ReadBuf, idle, first, &targetGot)
 			var rd readDone
 			gotRD := false
 			waitRD := func() {
@@ -462,13 +518,24 @@ func runConn(c casePlan, i int, frontAddr string, tg target, r *connResult) {
 					gotRD = true
 				}
 			}
-			if err := writeChunks(tc, p.DownSeed, &out.wrote, p.Down, idle); err != nil {
+			out.attempted = p.downTotal()
+			if err := writeChunks(tc, p.DownSeed, &out.wrote, p.Down, idle); err != nil && !(p.Mode == cmAbort && p.AbortBy == abClient && !isTimeout(err)) {
+				// (when the client is the one that resets, the relay may already have torn the session down)
 				out.err, out.liveness = "target write: "+err.Error(), isTimeout(err)
 				waitRD()
 				out.rd = rd
 				return
 			}
 			switch p.Mode {
+			case cmAbort:
+				if p.AbortBy == abTarget {
+					if !waitFor(idle+2*c.T(), abortTarget, resetCond) {
+						out.waitFailed = true
+					}
+					tc.SetLinger(0)
+					tc.Close() // RST
+				}
+				// otherwise: just read until the relay ends the connection (EOF or reset)
 			case cmTargetFirst, cmBoth:
 				tc.CloseWrite()
 			case cmClientFirst:
@@ -576,7 +643,7 @@ func runConn(c casePlan, i int, frontAddr string, tg target, r *connResult) {
 		if exp.forcedReply && c.hasReply() {
 			r.labels = append(r.labels, "forced-success-reply")
 		}
-		rdc := reader(cc, p.DownSeed, p.ReadBuf, idle, nil)
+		rdc := reader(cc, p.DownSeed, p.ReadBuf, idle, nil, &clientGot)
 		attempted := upOff
 		if p.FirstAt != faHandshake {
 			time.Sleep(time.Until(tReady.Add(firstDelay(c, p.FirstAt))))
@@ -602,12 +669,120 @@ func runConn(c casePlan, i int, frontAddr string, tg target, r *connResult) {
 		return
 	}
 
+	where := fmt.Sprintf("%s>%s (tfo=%v wait=%v T=%s buf=%d) target %s first-at=%s", c.Server, c.Client, c.DialerTFO, c.waitApplies(), c.T(), c.bufSize(), targetKindNames[p.Target], firstAtNames[p.FirstAt])
+
+	// --- session ended by a reset
+	if p.Mode == cmAbort {
+		who := [...]string{"client", "target"}[p.AbortBy]
+		rdc := reader(cc, p.DownSeed, p.ReadBuf, idle, nil, &clientGot)
+		attempted := upOff
+		var werr error
+		if p.FirstAt != faHandshake {
+			time.Sleep(time.Until(tReady.Add(firstDelay(c, p.FirstAt))))
+			attempted += int64(p.FirstLen)
+			werr = writeChunks(cc, p.UpSeed, &upOff, []int{p.FirstLen}, idle)
+		}
+		for _, n := range p.UpRest {
+			if werr != nil {
+				break
+			}
+			attempted += int64(n)
+			werr = writeChunks(cc, p.UpSeed, &upOff, []int{n}, idle)
+		}
+		clientWaitFailed := false
+		if p.AbortBy == abClient {
+			if sock.last == nil {
+				r.fail(true, "SIG=C13/harness-client no TCP socket captured for the reset")
+				return
+			}
+			if werr == nil && !waitFor(idle+2*c.T(), nil, resetCond) {
+				clientWaitFailed = true
+			}
+			sock.last.SetLinger(0)
+			cc.Close() // RST
+		}
+		crd := <-rdc
+		tout := <-tch
+		tch <- tout
+
+		if !tout.accepted {
+			r.fail(true, "SIG=C13/target-not-dialled %s: %s", where, tout.err)
+			return
+		}
+		if tout.rd.mismatch != "" {
+			r.fail(false, "SIG=C13/uplink-corrupted %s reset-by=%s: target: %s", where, who, tout.rd.mismatch)
+			return
+		}
+		if crd.mismatch != "" {
+			r.fail(false, "SIG=C13/downlink-corrupted %s reset-by=%s: client: %s", where, who, crd.mismatch)
+			return
+		}
+		if tout.rd.n > attempted {
+			r.fail(false, "SIG=C13/uplink-invented %s reset-by=%s: target received %d bytes, client wrote at most %d", where, who, tout.rd.n, attempted)
+			return
+		}
+		if crd.n > tout.attempted {
+			r.fail(false, "SIG=C13/downlink-invented %s reset-by=%s: client received %d bytes, target wrote at most %d", where, who, crd.n, tout.attempted)
+			return
+		}
+		// the side that resets does so only after its own writes succeeded and its condition held
+		if p.AbortBy == abClient && werr != nil {
+			r.fail(isTimeout(werr), "SIG=C13/client-write-failed %s before its reset: %v (sent %d of %d)", where, werr, upOff, p.upTotal())
+			return
+		}
+		if p.AbortBy == abTarget && tout.err != "" {
+			r.fail(tout.liveness, "SIG=C13/target-write-failed %s before its reset: %s", where, tout.err)
+			return
+		}
+		if clientWaitFailed || tout.waitFailed {
+			if clientGot.Load() < p.downTotal() && (p.AbortClean || clientGot.Load() == 0) {
+				r.fail(true, "SIG=C13/downlink-lost %s mode=reset: client received only %d of the %d bytes the target sent within the bound (no reset had happened yet)", where, clientGot.Load(), p.downTotal())
+			} else {
+				r.fail(true, "SIG=C13/uplink-lost %s mode=reset: target received only %d of the %d bytes the client sent within the bound (no reset had happened yet)", where, targetGot.Load(), p.upTotal())
+			}
+			return
+		}
+		// the other side must notice that the session is over (EOF or reset, either is fine)
+		if p.AbortBy == abClient && isTimeout(tout.rd.err) {
+			r.fail(true, "SIG=C13/reset-not-propagated %s: %s after the client reset the connection the target side is still open", where, idle)
+			return
+		}
+		if p.AbortBy == abTarget && isTimeout(crd.err) {
+			r.fail(true, "SIG=C13/reset-not-propagated %s: %s after the target reset the connection the client side is still open", where, idle)
+			return
+		}
+
+		// held. Exactly one session must be recorded for this connection's user; each direction's
+		// count lies between what the receiving harness side got and what the sending side wrote
+		// (data in flight may die with the reset); both coincide when the reset came after
+		// everything had been read.
+		r.session = true
+		r.up, r.upMax = tout.rd.n, attempted
+		r.down, r.downMax = crd.n, tout.attempted
+		r.nt = true
+		r.labels = append(r.labels, "session-ended-by-reset-with-bytes-relayed", "reset-by:"+who)
+		if p.AbortClean {
+			r.labels = append(r.labels, "reset:after-everything-was-read")
+		} else {
+			r.labels = append(r.labels, "reset:bytes-possibly-in-flight")
+		}
+		if r.up < r.upMax || r.down < r.downMax {
+			r.labels = append(r.labels, "reset:bytes-died-in-flight")
+		}
+		if c.Auth && hasUsers(c.Server) {
+			r.labels = append(r.labels, "reset:authenticated-user:"+c.Server)
+		} else {
+			r.labels = append(r.labels, "reset:anonymous")
+		}
+		return
+	}
+
 	// --- data phase
 	wantClientRead := p.downTotal()
 	if p.Mode == cmClientFirst {
 		wantClientRead += int64(p.Extra)
 	}
-	rdc := reader(cc, p.DownSeed, p.ReadBuf, idle, nil)
+	rdc := reader(cc, p.DownSeed, p.ReadBuf, idle, nil, &clientGot)
 	var crd readDone
 	gotCRD := false
 	waitCRD := func() {
@@ -647,7 +822,6 @@ func runConn(c casePlan, i int, frontAddr string, tg target, r *connResult) {
 	tch <- tout
 
 	// --- verdicts, most specific first
-	where := fmt.Sprintf("%s>%s (tfo=%v wait=%v T=%s buf=%d) target %s first-at=%s", c.Server, c.Client, c.DialerTFO, c.waitApplies(), c.T(), c.bufSize(), targetKindNames[p.Target], firstAtNames[p.FirstAt])
 	if !tout.accepted {
 		r.fail(true, "SIG=C13/target-not-dialled %s: %s", where, tout.err)
 		return
@@ -726,7 +900,7 @@ func runConn(c casePlan, i int, frontAddr string, tg target, r *connResult) {
 
 	// held
 	r.session = true
-	r.up, r.upMax, r.down = upOff, upOff, tout.wrote
+	r.up, r.upMax, r.down, r.downMax = upOff, upOff, tout.wrote, tout.wrote
 	nearDeadline := c.waitApplies() && (p.FirstAt == faHalf || p.FirstAt == faBefore || p.FirstAt == faAfter)
 	halfCloseFirst := p.Mode != cmBoth && p.Extra > 0
 	r.nt = nearDeadline || halfCloseFirst
